@@ -3,7 +3,13 @@
 Three components, each the *real* class from scales over harness-controlled neighbours:
 
   singleton   scales.pool.singleton.SingletonPoolSink  over a provider whose sinks open only when
-              the script says so (`ok`/`fail`), so requests can arrive during a slow open
+              the script says so (`ok`/`fail`), so requests can arrive during a slow open, and whose
+              Close() is not atomic for the pool: like scales/mux/sink.py `_Shutdown` it marks the sink
+              Closed and then fails the requests in flight on it, calling their callers back - a caller
+              the script armed re-submits through the pool from inside that Close() (`pclose retry`) -
+              and, if the script says so, it yields first and stays suspended until resumed, so that
+              requests of other greenlets reach the pool during the underlying Close()
+              (`pclose yield` … `cresume`)
   refcount    scales.sink.RefCountedSink               over a counting sink; the calls of a batch run
               concurrently (one greenlet each), optionally with an underlying sink that yields
   sharedprov  scales.sink.SharedSinkProvider           over a provider of real-enough sinks (state
@@ -22,8 +28,8 @@ from lib import vfmt
 
 PROPERTY = 'C16'
 COMPONENT = 'singleton'
-QUICK = dict(gen=4000, exh_len=5, exh_prov=4)
-THOROUGH = dict(gen=40000, exh_len=6, exh_prov=5)
+QUICK = dict(gen=4000, exh_len=5, exh_prov=4, exh_close=4)
+THOROUGH = dict(gen=40000, exh_len=6, exh_prov=5, exh_close=5)
 
 SOURCE_IMPORTS = ['ScalesModel.Model.Shared']
 _RC_VARS = {'self._ref_count': 'count', 'opens': 'opens', 'closes': 'closes'}
@@ -44,7 +50,8 @@ SOURCE_SITES = [
 TRUSTED = [
     'contract of an underlying sink as implemented by the harness sink (and by the socket transports and the '
     'test mocks): Idle until its open completes, Open() idempotent while an open result exists, Close()/fault '
-    'set Closed and fail a pending open',
+    'set Closed and fail a pending open; Close() then fails the requests in flight on the sink by an error '
+    'response up their sink stacks (as scales/mux/sink.py _Shutdown does) and may yield before that',
     'CPython reference counting drops a WeakValueDictionary entry as soon as the last strong reference goes',
     'gevent wakes waiters of an AsyncResult / RLock in FIFO order',
 ]
@@ -54,6 +61,11 @@ ASSUMPTIONS = [
     'exactly (sink id 0) and tolerated by the specification in exactly that situation - it is outside C16 (C01-type)',
     'singleton: each operation is followed by running the loop until every greenlet is blocked or finished; '
     'the only yield point inside _Get is Open().wait(), so this reaches every interleaving at that point',
+    'singleton: whether a request enters the pool from inside an underlying Close() is the environment\'s doing '
+    '(a failed caller that retries); the wire operation records that it happened (`pcloseR r`, `cresumeR k r`) or '
+    'that the underlying Close() is suspended at its yield (`pcloseY`, resumed by `cresume k`); what the pool does '
+    'with it is predicted by the model.  At most one caller re-submits per underlying Close(); the other '
+    'in-flight requests of that sink are failed without retry',
     'refcount: the order in which concurrent Open/Close calls take effect is observed from the real run '
     '(completion order) and given to the model; the effect of each call is predicted',
     'sharedprov: a holder is a strong reference kept by the harness; dropping it is the only way a sink dies; '
@@ -64,14 +76,21 @@ ASSUMPTIONS = [
     'the rest of that script is not run',
 ]
 RULE = ('scripts from the seeded generator plus the exhaustive enumerator (all singleton histories over '
-        '{req, Open, Close, open-ok, open-fail, fault} up to a length, all refcount Open/Close words up to a length, '
+        '{req, Open, Close, open-ok, open-fail, fault} up to a length, all singleton histories over that alphabet '
+        'plus {Close with a re-entrant retry, the same also without an in-flight request, Close that yields, resume, '
+        'resume with a re-entrant retry} that use one of the latter, up to a (shorter) length, '
+        'all refcount Open/Close words up to a length, '
         'all provider histories of two holders of one key over {CreateSink, drop, Open, Close, fault} up to a length); '
         'distinct = distinct (cfg, op list); non-trivial = reaches a branch beyond the happy path: a request or '
-        'Open()/Close() arriving while the sink is still opening, a replaced sink, a failed open, a surplus close, '
+        'Open()/Close() arriving while the sink is still opening, a request arriving during the underlying Close() '
+        '(re-entrant, or from another greenlet during its yield), a replaced sink, a failed open, a surplus close, '
         'a re-open, contended lock, a cache hit, a collected cache entry, CreateSink while the cached sink is Closed, '
         'Open/Close of a shared sink by a second holder, a fault of a shared sink')
 
 SINGLE_ALPHA = [['req'], ['popen'], ['pclose'], ['ok', 'cur'], ['fail', 'cur'], ['fault', 'cur']]
+# requests arriving during the underlying Close(): re-entrant (`retry`: the caller of a failed in-flight request;
+# `retry!`: also when nothing the pool handed over is in flight), or from another greenlet during a yield
+CLOSE_ALPHA = [['pclose', 'retry'], ['pclose', 'retry!'], ['pclose', 'yield'], ['cresume'], ['cresume', 'retry!']]
 PROV_ALPHA = [['create', 1, 1], ['create', 2, 1], ['drop', 1], ['drop', 2], ['hopen', 1], ['hopen', 2],
               ['hclose', 1], ['hclose', 2], ['fault', 1], ['fault', 2]]
 
@@ -81,12 +100,14 @@ def gen_script(rng, tier):
     kind = rng.choice(['singleton'] * 5 + ['refcount'] * 3 + ['sharedprov'] * 3)
     if kind == 'singleton':
         n = rng.choice([3, 5, 8, 12, 16, 24] if tier == 'quick' else [3, 5, 8, 12, 16, 24, 40])
-        style = rng.choice(['mixed', 'mixed', 'requests', 'flaky', 'holders'])
+        style = rng.choice(['mixed', 'mixed', 'requests', 'flaky', 'holders', 'closing', 'closing'])
         weights = {
-            'mixed': dict(req=35, popen=8, pclose=8, ok=20, fail=8, fault=12, faultold=3),
-            'requests': dict(req=55, popen=2, pclose=2, ok=25, fail=5, fault=10, faultold=1),
-            'flaky': dict(req=35, popen=3, pclose=3, ok=12, fail=20, fault=22, faultold=5),
-            'holders': dict(req=25, popen=22, pclose=25, ok=18, fail=3, fault=5, faultold=2),
+            'mixed': dict(req=35, popen=8, pclose=6, pclosex=4, cresume=3, ok=20, fail=8, fault=12, faultold=3),
+            'requests': dict(req=55, popen=2, pclose=2, pclosex=1, cresume=1, ok=25, fail=5, fault=10, faultold=1),
+            'flaky': dict(req=35, popen=3, pclose=3, pclosex=2, cresume=2, ok=12, fail=20, fault=22, faultold=5),
+            'holders': dict(req=25, popen=22, pclose=18, pclosex=10, cresume=6, ok=18, fail=3, fault=5, faultold=2),
+            # the last holder closes again and again over transports whose Close() calls back or yields
+            'closing': dict(req=30, popen=6, pclose=3, pclosex=22, cresume=12, ok=22, fail=3, fault=3, faultold=1),
         }[style]
         names = list(weights)
         ops = []
@@ -96,6 +117,10 @@ def gen_script(rng, tier):
                 ops.append(['req'])
             elif k in ('popen', 'pclose'):
                 ops.append([k])
+            elif k == 'pclosex':
+                ops.append(['pclose', rng.choice(['retry', 'retry', 'yield', 'yield', 'retry!'])])
+            elif k == 'cresume':
+                ops.append(rng.choice([['cresume'], ['cresume'], ['cresume', 'retry'], ['cresume', 'retry!']]))
             elif k == 'faultold':
                 ops.append(['fault', rng.randrange(1, 5)])
             else:
@@ -158,6 +183,17 @@ def exhaustive(tier, shard, shards):
             if k % shards != shard:
                 continue
             yield {'kind': 'singleton', 'ops': [list(SINGLE_ALPHA[i]) for i in word]}
+    # every singleton history over the larger alphabet that uses a non-atomic Close() at least once
+    alpha = SINGLE_ALPHA + CLOSE_ALPHA
+    base = len(SINGLE_ALPHA)
+    for n in range(1, params['exh_close'] + 1):
+        for word in itertools.product(range(len(alpha)), repeat=n):
+            if max(word) < base:
+                continue
+            k += 1
+            if k % shards != shard:
+                continue
+            yield {'kind': 'singleton', 'ops': [list(alpha[i]) for i in word]}
     # refcount: every Open/Close word, as one batch per call and as batches of two, yielding sink
     for n in range(1, params['exh_len'] + 3):
         for word in itertools.product(['ropen', 'rclose'], repeat=n):
@@ -219,14 +255,19 @@ def _state_name(st):
 
 def _sink_classes():
     """defined lazily: scales may only be imported after rt installed the virtual loop"""
+    from gevent.event import Event
     from scales.asynchronous import AsyncResult
     from scales.constants import ChannelState
+    from scales.message import MethodReturnMessage
     from scales.sink import ClientMessageSink
 
     class USink(ClientMessageSink):
-        """underlying sink whose open completes when the script says so"""
+        """underlying sink whose open completes when the script says so.  Like a multiplexing transport
+        (scales/mux/sink.py, _Shutdown) it keeps the requests handed to it in flight and its Close() fails
+        them by delivering an error response up each request's sink stack - after marking itself Closed, and,
+        if the script says so (`ctl['yield']`), after a cooperative yield that lasts until the script resumes it."""
 
-        def __init__(self, idx, fwd):
+        def __init__(self, idx, fwd, ctl):
             super(USink, self).__init__()
             self.idx = idx
             self._state = ChannelState.Idle
@@ -234,6 +275,9 @@ def _sink_classes():
             self.opens = 0
             self.closes = 0
             self._fwd = fwd
+            self._ctl = ctl
+            self.inflight = []      # (request id, sink stack) handed over while not Closed, unanswered
+            self.gate = None
 
         @property
         def state(self):
@@ -256,6 +300,25 @@ def _sink_classes():
             self.closes += 1
             self._state = ChannelState.Closed
             self._fail_pending()
+            if self._ctl['yield']:
+                # e.g. waiting for the reader greenlet to finish: other greenlets run meanwhile
+                self._ctl['yield'] = False
+                self.gate = Event()
+                self._ctl['suspended'].append(self)
+                self.gate.wait()
+            # what the script armed for *this* Close() (the pclose / cresume operation being executed): the
+            # first caller it fails re-submits.  Taken here, so that it cannot go off in another Close() that
+            # is still busy failing its requests.
+            retry, self._ctl['retry'] = self._ctl['retry'], None
+            force = self._ctl['force']
+            inflight, self.inflight = self.inflight, []
+            for _, sink_stack in inflight:
+                self._ctl['hook'], retry = retry, None
+                sink_stack.AsyncProcessResponseMessage(MethodReturnMessage(error=E('transport closed')))
+            if force and retry is not None:
+                # a transport that had queued a request while it was still opening (nothing of it reached
+                # the pool's view) fails that too; its caller re-submits
+                retry()
 
         def complete(self, ok):
             if not self.pending():
@@ -275,22 +338,37 @@ def _sink_classes():
 
         def AsyncProcessRequest(self, sink_stack, msg, stream, headers):
             self._fwd.append((msg.rid, self.idx))
+            reply = self._ctl['replies'].get(msg.rid)
+            if reply is not None:
+                reply.handed = True
+            if self._state != ChannelState.Closed:
+                self.inflight.append((msg.rid, sink_stack))
 
         def AsyncProcessResponse(self, sink_stack, context, stream, msg):
             pass
 
     class Reply(ClientMessageSink):
-        """bottom of a request's sink stack: sees a response produced without any hand-over"""
+        """bottom of a request's sink stack, the caller: sees a response produced without any hand-over
+        (recorded as a hand-over to nobody), and the failure of its in-flight request when the transport it
+        was handed to is closed - to which it reacts, if the script armed it (`ctl['retry']`), like a retrying
+        client: it re-submits through the same pool at once, i.e. from inside the transport's Close()."""
 
-        def __init__(self, rid, fwd):
+        def __init__(self, rid, fwd, ctl):
             super(Reply, self).__init__()
-            self.rid, self._fwd = rid, fwd
+            self.rid, self._fwd, self._ctl = rid, fwd, ctl
+            self.handed = False
+            ctl['replies'][rid] = self
 
         def AsyncProcessRequest(self, sink_stack, msg, stream, headers):
             pass
 
         def AsyncProcessResponse(self, sink_stack, context, stream, msg):
-            self._fwd.append((self.rid, 0))
+            if not self.handed:
+                self._fwd.append((self.rid, 0))
+                return
+            retry, self._ctl['hook'] = self._ctl['hook'], None
+            if retry is not None:
+                retry()
 
     return USink, Reply
 
@@ -315,10 +393,13 @@ def run_singleton(script):
     fwd = []          # hand-overs since the last observation
     sinks = []
     tags = set()
+    # what the script arms for the next pool.Close() / resumed Close(): `yield` - the underlying Close() yields
+    # until resumed; `retry` - the caller of the first in-flight request failed by that Close() re-submits
+    ctl = {'yield': False, 'retry': None, 'hook': None, 'force': False, 'suspended': [], 'replies': {}}
 
     class Prov(object):
         def CreateSink(self, properties):
-            s = USink(len(sinks) + 1, fwd)
+            s = USink(len(sinks) + 1, fwd, ctl)
             sinks.append(s)
             return s
 
@@ -329,12 +410,14 @@ def run_singleton(script):
         return _raised_at_start('singleton', '', first and (
             'req 1' if first[0] == 'req' else first[0] if len(first) == 1 else '%s 1' % first[0]), ex)
     greenlets = []
+    closers = []      # greenlets running pool.Close() with a yielding / calling-back underlying Close()
+    fired = []        # ids of the requests re-submitted from inside an underlying Close()
     steps = []
     rid = [0]
 
     def request(r):
         stack = ClientMessageSinkStack()
-        stack.Push(Reply(r, fwd))
+        stack.Push(Reply(r, fwd, ctl))
         try:
             pool.AsyncProcessRequest(stack, _Msg(r), None, None)
         except gevent.GreenletExit:
@@ -342,6 +425,12 @@ def run_singleton(script):
         except BaseException:
             # the request's greenlet would die here: the request was handed to nobody
             fwd.append((r, 0))
+
+    def retry():
+        """a failed caller re-submits, synchronously, from inside the underlying sink's Close()"""
+        rid[0] += 1
+        fired.append(rid[0])
+        request(rid[0])
 
     def sink_id(k):
         if k == 'cur':
@@ -369,6 +458,8 @@ def run_singleton(script):
                 text = 'req %d' % rid[0]
                 if any(s.pending() for s in sinks):
                     tags.add('req-during-open')
+                if ctl['suspended']:
+                    tags.add('req-during-close')
                 greenlets.append(gevent.spawn(request, rid[0]))
             elif name == 'popen':
                 text = 'popen'
@@ -377,9 +468,49 @@ def run_singleton(script):
                 pool.Open()
             elif name == 'pclose':
                 text = 'pclose'
+                mode = op[1] if len(op) > 1 else None
                 if any(s.pending() for s in sinks) and pool._ref_count <= 1 and waiting[0]:
                     tags.add('close-during-open')
-                pool.Close()
+                if ctl['suspended']:
+                    tags.add('close-during-close')
+                if mode is None:
+                    pool.Close()
+                else:
+                    # the underlying Close() may block (yield) or call back into the pool and block there:
+                    # pool.Close() runs in a greenlet of its own
+                    n_susp = len(ctl['suspended'])
+                    ctl['yield'] = mode == 'yield'
+                    ctl['retry'] = retry if mode in ('retry', 'retry!') else None
+                    ctl['force'] = mode == 'retry!'
+                    closers.append(gevent.spawn(pool.Close))
+                    rt.drain()
+                    ctl['yield'], ctl['retry'], ctl['force'] = False, None, False
+                    if fired:
+                        # the wire operation says what the environment did: the underlying Close() failed a
+                        # request and its caller re-submitted as request `fired` from inside it
+                        text = 'pcloseR %d' % fired.pop()
+                        tags.add('close-reentrant')
+                        if waiting[0]:
+                            tags.add('close-reentrant-during-open')
+                    elif len(ctl['suspended']) > n_susp:
+                        text = 'pcloseY'
+                        tags.add('close-yield')
+            elif name == 'cresume':
+                # the oldest suspended underlying Close() resumes and fails its in-flight requests
+                if not ctl['suspended']:
+                    continue
+                s = ctl['suspended'].pop(0)
+                ctl['retry'] = retry if len(op) > 1 and op[1] in ('retry', 'retry!') else None
+                ctl['force'] = len(op) > 1 and op[1] == 'retry!'
+                s.gate.set()
+                rt.drain()
+                ctl['retry'], ctl['force'] = None, False
+                if fired:
+                    text = 'cresumeR %d %d' % (s.idx, fired.pop())
+                    tags.add('resume-reentrant')
+                else:
+                    text = 'cresume %d' % s.idx
+                    tags.add('resume')
             else:
                 k = sink_id(op[1])
                 text = '%s %d' % (name, k)
@@ -417,7 +548,7 @@ def run_singleton(script):
         tags.add('replaced')
     if len(sinks) >= 3:
         tags.add('replaced-twice')
-    gevent.killall([g for g in greenlets if not g.dead], block=False)
+    gevent.killall([g for g in greenlets + closers if not g.dead], block=False)
     rt.drain()
     rt.take_errors()
     return {'comp': 'singleton', 'cfg': '', 'steps': steps, 'tags': sorted(tags)}
@@ -705,6 +836,7 @@ def run_script(script):
 def nontrivial(case):
     t = set(case.get('tags', []))
     return bool(t & {'req-during-open', 'open-during-open', 'close-during-open', 'fault-during-open',
+                     'close-reentrant', 'close-yield', 'req-during-close', 'resume-reentrant', 'close-during-close',
                      'fault-open-sink', 'open-fail', 'replaced', 'concurrent-handover', 'surplus-close',
                      're-open', 'contended', 'cache-hit', 'recreated-after-collect', 'dropped',
                      'create-while-closed', 'shared-open-again', 'shared-close-early', 'shared-surplus-close',
